@@ -17,12 +17,13 @@ TIERS = {  # mode: (programs, steps) per tier
     "c11": {"quick": (32, 700), "thorough": (400, 2000)},
     "c16": {"quick": (32, 900), "thorough": (300, 2500)},
     "c20": {"quick": (32, 700), "thorough": (300, 2000)},
+    "c18": {"quick": (32, 500), "thorough": (300, 1500)},
 }
 
 
-def kv_main(ctx, mode, sig_fn=None, extra=None):
+def kv_main(ctx, mode, sig_fn=None, extra=None, need_comp=("mem", "l0", "nl0")):
     nprog, nsteps = TIERS[mode][ctx.tier]
-    run_kv(ctx, mode, nprog, nsteps, sig_fn=sig_fn)
+    run_kv(ctx, mode, nprog, nsteps, sig_fn=sig_fn, need_comp=need_comp)
     cov = mc_coverage(ctx, extra)
     return finish(ctx, "model_checking", cov, ASSUME)
 
